@@ -472,7 +472,6 @@ def run(ctx: Context):
             if need not in ps:
                 raise AnchorVanished("_block_request_activity lost its %s parameter" % need)
         cfg = fn.cfg()
-        fx = _fnorm(fn)
 
         def names_of(s):
             return set(re.findall(r"[A-Za-z_]\w*", s or ""))
@@ -489,57 +488,127 @@ def run(ctx: Context):
                     return (X in ns) if op == "in" else (X not in ns)
             return True
 
-        def args_are(n, c, *want):
-            return len(c.args) >= len(want) and all(fx.norm(n, a) == w for a, w in zip(c.args, want))
-
-        def effects(n):
-            out = set()
-            a = n.ast
-            if n.kind == "stmt" and isinstance(a, ast.Delete):
-                for t in a.targets:
-                    if isinstance(t, ast.Subscript) and attr_path(t.value) == "self._active_share_map" \
-                            and fx.norm(n, t.slice) == "shnum":
-                        out.add("active-")
-            for c in node_calls(n):
-                nm = _cn(fn, n, c)
-                if nm == "self._active_share_map.pop" and args_are(n, c, "shnum"):
-                    out.add("active-")
-                if nm in ("self._overdue_share_map.discard", "self._overdue_share_map.remove") and args_are(n, c, "shnum", "share"):
-                    out.add("overdue-")
-                if nm == "self._overdue_share_map.add" and args_are(n, c, "shnum", "share"):
-                    out.add("overdue+")
-            if "self._blocks[]" in node_stores(n):
-                out.add("block")
-            return out
-
         def nothing_to_remove(f):
             op, l, rr = f
             if op in ("is not", "!=") and {l, rr} == {"self._active_share_map.get(shnum)", "share"}:
                 return True
             return op == "not in" and l == "shnum" and rr == "self._active_share_map"
 
+        summaries = {}
+
+        class Body:
+            """One function read in the handler's vocabulary (share / shnum / state).  The handler itself is read as it
+            stands; a helper method self.<helper>(..) it calls is read with its parameters renamed to the handler's
+            arguments (so `del self._active_share_map[num]` in the helper counts only when `num` is bound to shnum), and
+            contributes at the call the effects it performs on EVERY normal path consistent with the reported state."""
+            def __init__(self, f, rename, depth):
+                self.f, self.depth = f, depth
+                self.cfg = f.cfg()
+                self.fx = FlowNorm(f, rename=rename) if rename is not None else _fnorm(f)
+
+            def callee_name(self, n, c):
+                try:
+                    t = self.fx.norm(n, c.func)
+                except Exception:
+                    t = None
+                return t if t and re.match(r"^[\w.]+$", t) else call_name(c)
+
+            def args_are(self, n, c, *want):
+                return len(c.args) >= len(want) and all(self.fx.norm(n, a) == w for a, w in zip(c.args, want))
+
+            def effects(self, n, X):
+                out = set()
+                a = n.ast
+                if n.kind == "stmt" and isinstance(a, ast.Delete):
+                    for t in a.targets:
+                        if isinstance(t, ast.Subscript) and attr_path(t.value) == "self._active_share_map" \
+                                and self.fx.norm(n, t.slice) == "shnum":
+                            out.add("active-")
+                for c in node_calls(n):
+                    nm = self.callee_name(n, c)
+                    if nm == "self._active_share_map.pop" and self.args_are(n, c, "shnum"):
+                        out.add("active-")
+                    if nm in ("self._overdue_share_map.discard", "self._overdue_share_map.remove") \
+                            and self.args_are(n, c, "shnum", "share"):
+                        out.add("overdue-")
+                    if nm == "self._overdue_share_map.add" and self.args_are(n, c, "shnum", "share"):
+                        out.add("overdue+")
+                    out |= self.helper_effects(n, c, X)
+                if "self._blocks[]" in node_stores(n):
+                    # only the handler itself is trusted with the block store (the value is checked nowhere either)
+                    if self.f is fn:
+                        out.add("block")
+                return out
+
+            def helper_effects(self, n, c, X):
+                if self.depth <= 0 or not isinstance(c.func, ast.Attribute) or attr_path(c.func.value) != "self":
+                    return set()
+                h = self.f.cls.lookup(c.func.attr) if self.f.cls is not None else None
+                if h is None or h is fn or h is self.f or any(isinstance(a, ast.Starred) for a in c.args) \
+                        or any(k.arg is None for k in c.keywords):
+                    return set()
+                if any(isinstance(x, (ast.Yield, ast.YieldFrom, ast.Await)) for x in func_own_nodes(h)) \
+                        or isinstance(h.node, ast.AsyncFunctionDef) or h.node.decorator_list:
+                    return set()
+                ps = first_positional_params(h)
+                bound = {}
+                for prm, a in zip(ps, c.args):
+                    bound[prm] = a
+                for k in c.keywords:
+                    if k.arg in ps and k.arg not in bound:
+                        bound[k.arg] = k.value
+                rename = {}
+                for prm, a in bound.items():
+                    t = self.fx.norm(n, a)
+                    if re.match(r"^[A-Za-z_]\w*$", t or ""):
+                        rename[prm] = t
+                # a local or unbound parameter of the helper must not be mistaken for the handler's share / shnum / state
+                shadow = {"share", "shnum", "state"}
+                hstores = set()
+                for hn in h.cfg().nodes:
+                    if hn.kind not in ("entry", "exit", "raise"):
+                        hstores |= {t for t in node_stores(hn) if re.match(r"^[A-Za-z_]\w*$", t)}
+                if hstores & set(rename):
+                    return set()                         # the helper re-binds a parameter
+                for nm in (set(h.params) | hstores) - set(rename):
+                    if nm in shadow:
+                        rename[nm] = "<local %s of %s>" % (nm, h.name)
+                key = (h.qual, tuple(sorted(rename.items())), X)
+                if key not in summaries:
+                    summaries[key] = frozenset()         # recursion guard
+                    b = Body(h, rename, self.depth - 1)
+                    ends = b.ends(X)
+                    summaries[key] = frozenset.intersection(*ends) if ends else frozenset()
+                return set(summaries[key])
+
+            def ends(self, X):
+                top = self.f is fn
+
+                def transfer(n, lab, nxt, st):
+                    if n.kind in ("entry", "exit", "raise"):
+                        return st
+                    if lab == "exc":
+                        return st
+                    f = self.fx.edge_fact(n, lab)
+                    if f:
+                        if (top and f == ("false", "self._running", None)) or not consistent(f, X):
+                            return None
+                        if nothing_to_remove(f):
+                            st = st | {"active-"}
+                    e = self.effects(n, X)
+                    return st | frozenset(e) if e else st
+                self.visited, self.parent = explore(self.cfg, frozenset(), transfer)
+                return [st for (nid, st) in self.visited if nid == self.cfg.exit.id]
+
         for X in TERMINAL + ("OVERDUE",):
             need = {"active-", "overdue-"} if X in TERMINAL else {"active-", "overdue+"}
             if X == "COMPLETE":
                 need = need | {"block"}
-
-            def transfer(n, lab, nxt, st, _X=X):
-                if n.kind in ("entry", "exit", "raise"):
-                    return st
-                if lab == "exc":
-                    return st
-                f = fx.edge_fact(n, lab)
-                if f:
-                    if f == ("false", "self._running", None) or not consistent(f, _X):
-                        return None
-                    if nothing_to_remove(f):
-                        st = st | {"active-"}
-                e = effects(n)
-                return st | frozenset(e) if e else st
-            visited, parent = explore(cfg, frozenset(), transfer)
+            top = Body(fn, None, 2)
+            ends = top.ends(X)
+            visited, parent = top.visited, top.parent
             r.count(len(visited))
             r.site(fn, None, "state " + X)
-            ends = [st for (nid, st) in visited if nid == cfg.exit.id]
             if not ends:
                 raise AnalysisError("no path of _block_request_activity is consistent with state %s" % X)
             words = {"active-": "removing it from _active_share_map", "overdue-": "discarding it from _overdue_share_map",
@@ -709,15 +778,31 @@ def run(ctx: Context):
         if not sends or not sends[0].args or attr_path(sends[0].args[0]) is None:
             raise AnchorVanished("ShareFinder.loop no longer calls send_request(<server>)")
         srv = attr_path(sends[0].args[0])
-        no_server = lambda n, lab: fx2.edge_fact(n, lab) in (("false", srv, None), ("is", "None", srv), ("is", srv, "None"))
-        for (n, w) in find_path_avoiding(cfg, ann, gate_edge=no_server, kill=stores(srv)):
+        raw = N()            # the test as written: `server` itself, not the helper call it was bound to
+
+        def no_server(n, lab):
+            forms = (("false", srv, None), ("is", "None", srv), ("is", srv, "None"))
+            if fx2.edge_fact(n, lab) in forms:
+                return True
+            # a server variable bound once (server = self._next_server()) is read through to its definition by the
+            # flow facts; the None / false edge of a test on the variable itself says the same thing
+            if n.kind == "test" and isinstance(lab, tuple) and len(lab) == 2 and lab[0] in ("T", "F") and isinstance(lab[1], ast.AST):
+                try:
+                    return raw.cmp(lab[1], lab[0] == "T") in forms
+                except Exception:
+                    return False
+            return False
+        def binds_none(n):       # `server = None`: the pass has no server from here on
+            v = assign_value(n, srv) if srv in node_stores(n) else None
+            return n.kind == "stmt" and isinstance(n.ast, ast.Assign) and isinstance(v, ast.Constant) and v.value is None
+        for (n, w) in find_path_avoiding(cfg, ann, gate_edge=no_server, gate_node=binds_none,
+                                         kill=lambda n: stores(srv)(n) and not binds_none(n)):
             r.violation(fl, fl.loc(n.ast), "no_more_shares is announced on a pass that obtained a server to query "
                         "(path: %s)" % w.brief(), w)
         # the server variable is falsy only when the iterator is exhausted: its only definitions are None and next(..)
         for n in cfg.find(stores(srv)):
             v = assign_value(n, srv)
-            ok = (isinstance(v, ast.Constant) and v.value is None) or (isinstance(v, ast.Call) and call_tail(v) == "next"
-                                                                        and v.args and attr_path(v.args[0]) == "self._servers")
+            ok = _server_or_none(fl, v)
             r.require(ok, fl, fl.loc(n.ast), "`%s` is bound to %s: a pass that did not take the next server can look like an "
                       "exhausted server list" % (srv, src(fl, v)))
 
@@ -809,6 +894,42 @@ def run(ctx: Context):
                     r.violation(fu, fu.loc(t.ast), "a share skipped because of the per-server limit is not reported as "
                                 "want_more_diversity: _do_loop then waits instead of raising the limit (path: %s)" % w.brief(), w)
                     break
+
+
+def _server_or_none(fn, v, depth=2):
+    """The value is None or the next server of self._servers - directly, or as the result of a helper method
+    self.<helper>() every return of which is one of the two (a helper that falls off its end returns None)."""
+    if v is None:
+        return False
+    if isinstance(v, ast.Constant):
+        return v.value is None
+    if not isinstance(v, ast.Call):
+        return False
+    if call_tail(v) == "next" and isinstance(v.func, ast.Name):
+        return bool(v.args) and attr_path(v.args[0]) == "self._servers" and not v.keywords and \
+            (len(v.args) == 1 or (len(v.args) == 2 and isinstance(v.args[1], ast.Constant) and v.args[1].value is None))
+    if depth <= 0 or not isinstance(v.func, ast.Attribute) or attr_path(v.func.value) != "self" or v.args or v.keywords \
+            or fn.cls is None:
+        return False
+    h = fn.cls.lookup(v.func.attr)
+    if h is None or h is fn or h.node.decorator_list or isinstance(h.node, ast.AsyncFunctionDef) \
+            or any(isinstance(x, (ast.Yield, ast.YieldFrom, ast.Await)) for x in func_own_nodes(h)):
+        return False
+    rets = [n for n in h.cfg().nodes if is_return(n)]
+    if not rets:
+        return False
+    for n in rets:
+        if n.ast.value is None:
+            continue
+        e = _ret_expr(h, n)
+        if isinstance(e, ast.Name):
+            # a variable with several definitions: every store of it in the helper must qualify
+            sts = h.cfg().find(stores(e.id))
+            if not sts or not all(_server_or_none(h, assign_value(m, e.id), depth - 1) for m in sts):
+                return False
+        elif not _server_or_none(h, e, depth - 1):
+            return False
+    return True
 
 
 def _reaches_when(fn, target, forbidden):
@@ -1755,6 +1876,76 @@ def _not_started(fn, n, x):
     return None
 
 
+def _own_entry(f, fx, n, states_ok=True):
+    """Every normal path of f to node n (a removal from _active_share_map keyed by shnum) has established that the entry is
+    the reporting share's own (`self._active_share_map.get(shnum) is share`) or that the share reports OVERDUE (only an
+    active share does): after a share was abandoned its shnum may be held by its replacement, and a repeated DEAD of the
+    abandoned share must not evict that one."""
+    def own(q, lab):
+        t = fx.edge_fact(q, lab)
+        if not t:
+            return False
+        op, l, rr = t
+        if op == "is" and {l, rr} == {"self._active_share_map.get(shnum)", "share"}:
+            return True
+        return states_ok and op in ("is", "==") and {l, rr} == {"state", "OVERDUE"}
+    return not find_path_avoiding(f.cfg(), lambda q: q is n, gate_edge=own, skip_exc_edges=True,
+                                  kill=lambda q: bool({"share", "shnum", "state"} & set(node_stores(q))))
+
+
+def _event_helper_keys(idx, ev, h, n, node, p, payload):
+    """`h` is a helper method that only _block_request_activity calls (self.<h>(..), no other caller or reference
+    anywhere), and at every one of those calls the keys of the removal at node n of h, read with h's parameters renamed to
+    the handler's arguments, are the (shnum[, share]) of the event."""
+    try:
+        bad, badrefs, total = callers_outside(idx, h.name, [ev.qual])
+    except Exception:
+        return False
+    if bad or badrefs or not total:
+        return False
+    if any(isinstance(x, (ast.Yield, ast.YieldFrom, ast.Await)) for x in func_own_nodes(h)) \
+            or isinstance(h.node, ast.AsyncFunctionDef) or h.node.decorator_list:
+        return False
+    efx = _fnorm(ev)
+    sites = [(q, c) for q in ev.cfg().nodes if q.kind not in ("entry", "exit", "raise") for c in node_calls(q)
+             if isinstance(c.func, ast.Attribute) and attr_path(c.func.value) == "self" and c.func.attr == h.name]
+    if not sites or len(sites) != total or ev.cls.lookup(h.name) is not h:
+        return False                                 # a call from a nested function or a bare reference is not followed
+    ps = first_positional_params(h)
+    hstores = set()
+    for hn in h.cfg().nodes:
+        if hn.kind not in ("entry", "exit", "raise"):
+            hstores |= {t for t in node_stores(hn) if re.match(r"^[A-Za-z_]\w*$", t)}
+    for (q, c) in sites:
+        if any(isinstance(a, ast.Starred) for a in c.args) or any(k.arg is None for k in c.keywords):
+            return False
+        bound = dict(zip(ps, c.args))
+        for k in c.keywords:
+            if k.arg in ps and k.arg not in bound:
+                bound[k.arg] = k.value
+        rename = {}
+        for prm, a in bound.items():
+            t = efx.norm(q, a)
+            if re.match(r"^[A-Za-z_]\w*$", t or ""):
+                rename[prm] = t
+        if hstores & set(rename):
+            return False                             # the helper re-binds a parameter
+        for nm in (set(h.params) | hstores) - set(rename):
+            if nm in ("share", "shnum", "state"):
+                rename[nm] = "<local %s of %s>" % (nm, h.name)
+        hfx = FlowNorm(h, rename=rename)
+        keys = [hfx.norm(n, k) for k in payload[0]]
+        if isinstance(node, ast.Call) and call_tail(node) in ("discard", "remove") and p == SHARE_MAPS[1]:
+            if keys[:2] != ["shnum", "share"]:
+                return False
+        elif keys[:1] != ["shnum"]:
+            return False
+        elif p == SHARE_MAPS[0] and not _own_entry(h, hfx, n, states_ok="state" in rename.values()
+                                                   and [k for k, v in rename.items() if v == "state"] == ["state"]):
+            return False
+    return True
+
+
 def _rule_candidates_kept(ctx: Context):
     """C03.12: the fetcher reaches k only through the shares it has been given.  An entry leaves one of its candidate
     containers only for a reason of its own: an unused share because it is being started, an active / overdue share
@@ -1822,7 +2013,9 @@ def _rule_candidates_kept(ctx: Context):
                     if isinstance(node, ast.Call) and call_tail(node) in ("discard", "remove") and p == SHARE_MAPS[1]:
                         ok = keys[:2] == ["shnum", "share"]
                     else:
-                        ok = keys[:1] == ["shnum"]
+                        ok = keys[:1] == ["shnum"] and (p != SHARE_MAPS[0] or _own_entry(fn, fx, n))
+                elif kind == "elem" and fn.cls is ev.cls and fn.parent is None:
+                    ok = _event_helper_keys(idx, ev, fn, n, node, p, payload)
                 if not ok:
                     r.violation(fn, where, "%s takes entries out of %s (`%s`) that are not the (shnum, share) whose own event "
                                 "_block_request_activity is handling: a request in flight (or a slow share that may still "
